@@ -305,6 +305,48 @@ fn main() {
             }
             extra = json!({"names_checked": checked});
         }
+        // C05: what is attached inside the scope of an unsampled span never reaches the reporter, also
+        // when the property closure owns (and may drop) that scope's guard
+        "property-closure-owning-a-guard" => {
+            let rep = Rep::default();
+            fastrace::set_reporter(rep.clone(), Config::default());
+            let sampled = Span::root("sampled-root", SpanContext::new(TraceId(0x5A01), SpanId(1)));
+            let unsampled = Span::root("unsampled-root", SpanContext::new(TraceId(0x5A02), SpanId(1)).sampled(false));
+            let ran = Arc::new(AtomicBool::new(false));
+            {
+                let _g1 = sampled.set_local_parent();
+                let _work = LocalSpan::enter_with_local_parent("sampled-work");
+                let g2 = unsampled.set_local_parent();
+                let holder = std::cell::RefCell::new(Some(g2));
+                let ran2 = ran.clone();
+                // the closure is the owner of the inner scope's guard: if it runs, the guard goes
+                LocalSpan::add_properties(|| {
+                    ran2.store(true, Ordering::SeqCst);
+                    drop(holder.borrow_mut().take());
+                    [("unsampled.user", "alice")]
+                });
+                c();
+                drop(holder.borrow_mut().take());
+                LocalSpan::add_property(|| ("sampled.key", "kept"));
+            }
+            drop(unsampled);
+            drop(sampled);
+            fastrace::flush();
+            let recs = rep.0.lock().unwrap();
+            let leaked: Vec<String> = recs
+                .iter()
+                .filter(|r| r.trace_id.0 == 0x5A02 || r.properties.iter().any(|(k, _)| k == "unsampled.user"))
+                .map(|r| format!("{} {:?}", r.name, r.properties))
+                .collect();
+            let work = recs.iter().find(|r| r.name == "sampled-work").map(|r| r.properties.iter().map(|(k, v)| format!("{}={}", k, v)).collect::<Vec<_>>());
+            extra = json!({"closure_ran": ran.load(Ordering::SeqCst), "sampled_work_properties": work});
+            if !leaked.is_empty() {
+                panic!("a property added inside the scope of an unsampled span was delivered: {:?}", leaked);
+            }
+            if work != Some(vec!["sampled.key=kept".to_string()]) {
+                panic!("the local span of the sampled trace was delivered with properties {:?}, expected [sampled.key=kept]", work);
+            }
+        }
         // C14: an adapter call made from a destructor while the thread unwinds is scoped like any other
         "adapter-call-in-drop-while-unwinding" => {
             use futures::Sink;
